@@ -348,6 +348,14 @@ impl Segments {
         }
     }
 
+    /// True while the newest segment is an MTU probe that the remote has not acknowledged: it may
+    /// still be popped and its bytes segmented again, under this and the following sequence numbers.
+    pub fn is_mtu_probe_outstanding(&self) -> bool {
+        self.segments
+            .back()
+            .is_some_and(|s| s.is_mtu_probe && !s.is_delivered)
+    }
+
     /// Forget the segments at the back that were never transmitted: their bytes go back to the
     /// unsegmented part of the stream, their sequence numbers were never used on the wire.
     pub fn discard_unsent(&mut self) {
